@@ -171,6 +171,11 @@ def check_file(m, dec, fid, fp0):
                 first = next((so.objects[0].name[0] for so in lfd.sets if so.type == 'ORIGIN' and so.objects), None)
                 if first is not None and o.name[0] != first:
                     out.append(C.V('C07.origin_not_in_lf', dict(fp, why='not_the_defining_origin'), object=list(o.name), want=first))
+        # the FILE-HEADER object is an object too: nobody chooses its origin, so it carries the defining origin's reference
+        first = next((so.objects[0].name[0] for so in lfd.sets if so.type == 'ORIGIN' and so.objects), None)
+        if lfd.header is not None and lfd.header.objects and first is not None and lfd.header.objects[0].name[0] != first:
+            out.append(C.V('C07.origin_not_in_lf', dict(fp0, set='FILE-HEADER', explicit=False, why='not_the_defining_origin'),
+                           object=list(lfd.header.objects[0].name), want=first, lf=li))
         # (b) references decode to exactly one object of the same logical file: the one the user passed
         for mo in lfm.objects:
             if mo.h not in loc:
